@@ -5,6 +5,7 @@ import (
 	"encoding/json"
 	"errors"
 	"fmt"
+	"io"
 	"os"
 	"runtime"
 	"runtime/debug"
@@ -219,13 +220,22 @@ func bufSizes(st *stream) []int {
 // given by cuts (ascending offsets in 1..n-1) and returns the signature of
 // the first deviation from the reference framer ("" when there is none).
 func (h *framerH) runOne(st *stream, cuts []int, buf []byte) (sig, detail string) {
+	return h.runMode(st, cuts, buf, "")
+}
+
+// runMode is runOne with a reader behaviour: "" (data, then errors separately), "eof-with-last" (the final
+// bytes come together with io.EOF), "empty-reads" (8 (0, nil) results before every data read).
+func (h *framerH) runMode(st *stream, cuts []int, buf []byte, mode string) (sig, detail string) {
 	defer func() {
 		if p := recover(); p != nil {
 			sig, detail = "panic:STUNConn.ReadFrom", fmt.Sprint(p)
 		}
 	}()
 	c := &h.conn
-	*c = sconn{}
+	*c = sconn{eofWithLast: mode == "eof-with-last"}
+	if mode == "empty-reads" {
+		c.empties, c.emptyLeft = 8, 8
+	}
 	sc := proto.NewSTUNConn(c)
 	n, nf := len(st.b), len(st.ends)
 	maxResults := 10*nf + 10 // cap on ReadFrom results that are not "would block"
@@ -236,6 +246,7 @@ func (h *framerH) runOne(st *stream, cuts []int, buf []byte) (sig, detail string
 			end = cuts[j]
 		}
 		c.pend = st.b[prev:end] // deliver bytes [prev,end)
+		c.lastSeg = j == len(cuts)
 		prev = end
 		if h.trace != nil {
 			h.trace("deliver bytes [%d,%d) (%d delivered)", end-len(c.pend), end, end)
@@ -248,6 +259,14 @@ func (h *framerH) runOne(st *stream, cuts []int, buf []byte) (sig, detail string
 			if err != nil {
 				if errors.Is(err, errWouldBlock) {
 					break
+				}
+				if errors.Is(err, io.EOF) && c.sawEOF {
+					if next < nf && st.ends[next] <= end {
+						return "frame-lost:bytes-returned-together-with-EOF-were-discarded:" + st.at(next),
+							fmt.Sprintf("frame %d (offsets %d..%d) was completed by a Read that returned (n>0, io.EOF); ReadFrom answered %q and the frame is gone", next, pos, st.ends[next], err)
+					}
+
+					break // every completed frame was handed out before the EOF: fine
 				}
 				if next == nf && st.bad >= 0 {
 					return "", "" // the invalid tail was answered with an error
@@ -310,6 +329,9 @@ func (h *framerH) runOne(st *stream, cuts []int, buf []byte) (sig, detail string
 	if zeros > 0 {
 		return "zero-length-read:" + st.at(min(next, nf)), fmt.Sprintf("%d successful ReadFrom results with n=0", zeros)
 	}
+	if c.empties > 0 && c.maxDepth-c.baseDepth >= c.empties {
+		return "stack-grows-with-every-empty-read", fmt.Sprintf("the call stack inside Read is %d frames deeper after a run of %d empty (0, nil) reads than at the first Read: one nested ReadFrom per empty read, without bound", c.maxDepth-c.baseDepth, c.empties)
+	}
 
 	return "", ""
 }
@@ -337,6 +359,20 @@ func (h *framerH) eval(st *stream, cuts []int, bufSize int, kind string) {
 	h.evals++
 	sig, detail := h.runOne(st, cuts, h.bufs[bufSize])
 	h.reads += int64(h.conn.reads)
+	if sig == "" && st.bad < 0 {
+		// the same stream and segmentation through the two other legal reader behaviours
+		for _, mode := range []string{"eof-with-last", "empty-reads"} {
+			if mode == "empty-reads" && (len(st.b) > 512 || len(cuts) > 8) {
+				continue // 40 extra reads per data read: kept to the short streams (the behaviour does not depend on the length)
+			}
+			h.evals++
+			if sig, detail = h.runMode(st, cuts, h.bufs[bufSize], mode); sig != "" {
+				kind += ", reader=" + mode
+
+				break
+			}
+		}
+	}
 	if sig == "" {
 		return
 	}
